@@ -42,6 +42,14 @@ def cases(rng, tier):
                 p["j"] = rng.randint(0, max(lens)) if rng.random() < 0.9 else rng.choice([2 ** 31 - 1, 2 ** 31, 2 ** 31 + 5, 2 ** 40, 2 ** 62])
                 p["jform"] = rng.choice(gens.INT_FORMS)      # the column number as a Python int or a numpy integer scalar
             out.append(p)
+    # SCALE: rows of several hundred cells next to short and empty ones, the longest length shared by several rows or not
+    for _ in range(25 if tier == "quick" else 300):
+        L = rng.choice([300, 700, 257, 513, 1200])
+        lens = [rng.choice([L, L, 0, 3, 5, L - 256, L // 2]) for _ in range(rng.randint(2, 6))]
+        if max(lens) == 0:
+            lens[0] = L
+        for f in ("sum", "mean", "counts", "np.sum"):
+            out.append({"lens": lens, "f": f, "dtype": rng.choice(["int64", "bool", "int8", "float64", "uint16"]), "vseed": rng.randint(0, 9999), "mode": "small", "derived": None, "big": True})
     return out
 
 
@@ -208,6 +216,8 @@ def _small_int(p):
 
 
 def lean_request(p):
+    if p.get("big"):
+        return None
     f = p["f"]
     vals, rows = _rows(p)
     if f == "counts":
